@@ -108,6 +108,13 @@ func (t *logTap) Write(p []byte) (int, error) {
 		t.mu.Lock()
 		t.events[f] = append(t.events[f], true)
 		t.mu.Unlock()
+	case strings.Contains(s, `"_source":"redis-cache"`) && strings.Contains(s, "Config reload"):
+		// the credentials file of the redis cache: "Config reloaded" / "Config reload failed"
+		f := logField(s, "_file")
+		t.mu.Lock()
+		t.events[f] = append(t.events[f], !strings.Contains(s, "Config reload failed"))
+		t.lastErr[f] = trunc(logField(s, "_error")+logField(s, "error"), 300)
+		t.mu.Unlock()
 	case strings.Contains(s, "runtime/debug.Stack"):
 		// the recovery middleware logs the panic value and the stack: the request got an error response,
 		// which is what the statement asks for; recorded as an observation
@@ -300,6 +307,8 @@ type env struct {
 	gen                    int
 	restoreN               int
 
+	redis *redisWorld // lane redis-creds: miniredis, the relay in front of it and the credentials file of the cache
+
 	goodToken string
 	bursted   map[string]bool // rules that have been the target of a burst in this process
 	abandon   bool            // a request is still being worked on (no answer within the harness' patience): leave without a graceful stop
@@ -347,7 +356,7 @@ func barrierDoc(gen int) []byte {
 	return []byte(fmt.Sprintf("version: \"1alpha4\"\nname: sentinel\nrules:\n- id: sentinel\n  match: {routes: [{path: \"/sent/g%08d\"}]}\n  execute: [{authenticator: anon}, {finalizer: noop}]\n", gen))
 }
 
-func newEnv(dir string, corpus map[string][]byte, envVars, httpProvider bool) (_ *env, err error) {
+func newEnv(dir string, corpus map[string][]byte, envVars, httpProvider, redisCache bool) (_ *env, err error) {
 	e := &env{dir: dir, corpus: corpus, tap: newLogTap(), ks: map[string]*ksState{}, rulesKind: kRules, held: map[string][]string{}, heldKnown: map[string]bool{}}
 	if envVars {
 		e.rulesKind = kRulesEnv
@@ -396,6 +405,14 @@ func newEnv(dir string, corpus map[string][]byte, envVars, httpProvider bool) (_
 	}
 	if err := os.WriteFile(e.fileB, barrierDoc(0), 0o600); err != nil {
 		return nil, err
+	}
+	if redisCache {
+		if e.redis, err = newRedisWorld(dir); err != nil {
+			return nil, err
+		}
+		if err := os.WriteFile(filepath.Join(e.rulesDir, "01-redis.yaml"), []byte(redisRules), 0o600); err != nil {
+			return nil, err
+		}
 	}
 	e.goodToken = signToken(validClaims(), harnessKid)
 
@@ -453,6 +470,12 @@ func newEnv(dir string, corpus map[string][]byte, envVars, httpProvider bool) (_
 		)
 		p.Contextualizers = append(p.Contextualizers, mech("gctx", "generic", map[string]any{
 			"endpoint": map[string]any{"url": S + "/ctx"}, "payload": `{"sub": {{ quote .Subject.ID }} }`, "cache_ttl": "0s"}))
+		if e.redis != nil {
+			// the response is cached under a key that holds the request path
+			c.Cache = config.CacheConfig{Type: "redis", Config: e.redis.config()}
+			p.Contextualizers = append(p.Contextualizers, mech("gctxc", "generic", map[string]any{
+				"endpoint": map[string]any{"url": S + "/ctx"}, "payload": `{"sub": {{ quote .Subject.ID }}, "path": {{ quote .Request.URL.Path }} }`, "cache_ttl": "1m"}))
+		}
 		p.Finalizers = append(p.Finalizers, mech("jwtfin", "jwt", map[string]any{
 			"signer": map[string]any{"key_store": map[string]any{"path": e.ks[kSigner].path, "password": ksPassword}}, "ttl": "4s"}))
 		p.ErrorHandlers = append(p.ErrorHandlers, mech("defeh", "default", nil), mech("wwwa", "www_authenticate", map[string]any{"realm": "verif"}), mech("redir", "redirect", map[string]any{"to": "http://login.local/x"}))
@@ -496,6 +519,9 @@ func (e *env) stop() {
 		_ = e.a.Stop()
 	}
 	_ = e.srv.ln.Close()
+	if e.redis != nil {
+		e.redis.stop()
+	}
 }
 
 func (e *env) journalW(j jEntry) {
@@ -1568,7 +1594,8 @@ func c19Child() {
 		}
 	}
 	httpLane := start < len(batch) && batch[start].Kind == kRemoteRules
-	e, err := newEnv(dir, corpus, envLane, httpLane)
+	redisLane := start < len(batch) && batch[start].Kind == kRedisCreds
+	e, err := newEnv(dir, corpus, envLane, httpLane, redisLane)
 	if err != nil {
 		fail(err.Error())
 	}
@@ -1605,6 +1632,8 @@ func c19Child() {
 				goOn = e.applyRequest(in, i, &res)
 			case kRemoteRules:
 				goOn = e.applyRemoteRules(in, i, &res)
+			case kRedisCreds:
+				goOn = e.applyRedisCreds(in, i, &res)
 			}
 		}
 		if n, msg := e.tap.recoveredPanics(); n > recovered0 {
